@@ -410,7 +410,9 @@ class Check(PropertyCheck):
     design_ref = "§5 C29"
     level_text = ("Lean theorems over ALL input schedules (every interleaving of the two directions, hooks pending, injections, addon "
                   "edits, flow.kill() inside any hook [Input.hookKill], half/full closes in any order, connect results) of the "
-                  "TCPLayer/UDPLayer + Layer pause/replay-queue model: relay_exact_per_direction (+ addon_edit_is_what_is_sent, "
+                  "TCPLayer/UDPLayer + Layer pause/replay-queue model: relay_exact_per_direction (+ "
+                  "recorded_messages_are_arrivals_with_edits: whole history, recorded = arrivals with the addon's edit of each "
+                  "completed message hook applied one for one, one_recorded_message_per_completed_hook; addon_edit_is_what_is_sent, "
                   "inject_is_spoofed_data, kill_in_message_hook_still_relays, kill_is_plain_completion), "
                   "half_close_propagated_while_other_direction_flows, half_close_emitted_once_quiescent (closes buffered behind "
                   "hooks), full_close_only_when_ending, tcp_ends_only_when_both_directions_closed, at_most_one_end_or_error, "
